@@ -211,7 +211,7 @@ impl Oracle for LedgerOracle {
         // (a) user transactions of this step; discards take effect after the step's fragments were examined
         let mut discarded_now: Vec<u64> = Vec::new();
         for tl in &step.timeline {
-            if let TL::Update { op, info, t_ms, at_lock } = tl {
+            if let TL::Update { op, info, t_ms, at_lock, .. } = tl {
                 let before: BTreeSet<u64> = self.ledger.events.values().filter(|e| e.state == EvState::Discarded).map(|e| e.id).collect();
                 if let Err(msg) = self.ledger.apply_update(op, *info, *t_ms) {
                     return Some(Violation::new(
@@ -236,7 +236,7 @@ impl Oracle for LedgerOracle {
             }
         }
 
-        let sent_confirm: Option<(bool, u8)> = step.sent.as_ref().and_then(|s| {
+        let sent_confirm: Option<(bool, u8)> = step.sent.as_ref().filter(|_| step.link_up).and_then(|s| {
             if s.bytes.len() == 2 && s.bytes[1] == refapp::FUNC_CONFIRM && s.src == _world.cfg.master_addr && s.bytes[0] & 0xC0 == 0xC0 {
                 Some((s.bytes[0] & 0x10 != 0, s.bytes[0] & 0x0F))
             } else {
